@@ -144,10 +144,10 @@ theorem α_connectTo (srv : Server) (s : St) : α (connectTo cfg srv s) = α s :
 theorem α_applyStsPolicy {s s' : St} {srv srv' : Server} (h : applyStsPolicy s srv = some (srv', s')) : α s' = α s := by
   unfold applyStsPolicy at h
   split at h
+  · injection h with h; injection h with _ h; subst h; rfl
   · split at h
     · split at h <;> (injection h with h; injection h with _ h; subst h; rfl)
     · cases h
-  · injection h with h; injection h with _ h; subst h; rfl
 
 theorem α_drvConnect (srv : Option Server) (s : St) : α (drvConnect cfg srv s) = α s := by
   unfold drvConnect
